@@ -358,6 +358,11 @@ class Connection(object):
             try:
                 tx_size = sock.send(data)
                 self._logger.debug('Sent %d octets', tx_size)
+            except (BlockingIOError, ssl.SSLWantWriteError):
+                # A full socket is not a failure, which happens when this
+                # is run from the idle callback instead of the socket watch
+                self._logger.debug('Socket is not writable yet')
+                return True
             except socket.error as err:
                 self._logger.error('Failed to "send" on socket: %s', err)
                 tx_size = None
